@@ -379,28 +379,31 @@ Qed.
 (* STRETCH ROUND: the panic sites beyond the checked slices of the model.   *)
 (* proofs/UntrustedPanicSitesTable.v is a HAND-MADE table of the expressions *)
 (* on the untrusted-keyset path that Go or its standard library can make    *)
-(* panic, as far as a reading of the files found them (71 sites: file,      *)
-(* function, expression, kind, guard, coverage).  A site the reading missed *)
-(* is not in it: Coq does not check the completeness of the LIST.  What it  *)
-(* checks is the coverage column: a CModel / CLemma entry carries the       *)
-(* proposition that covers the site and its proof term, so the table        *)
-(* type-checks only if that theorem exists and states what the entry says.  *)
-(* model/UntrustedSites.v transcribes, with Go's machine integers, the      *)
-(* sites the model did not carry as a checked operation of its own.         *)
+(* panic, as far as a reading of the files found them (72 entries: file,    *)
+(* function, expression, kind, guard, coverage).  Coq does NOT check that   *)
+(* the list is complete.  It checks the coverage column, and only for the   *)
+(* two constructors of fixed shape (model/UntrustedPanicSites.v):           *)
+(*   CModel op w f pf       op : X -> outcome Y can panic (w : exists x,     *)
+(*                          op x = Panic); f, the model function performing *)
+(*                          it behind the guard, never does (pf)            *)
+(*   CLemma raw w guard pf  the site as written WITHOUT its guard can panic *)
+(*                          (w); under the guard it cannot (pf)             *)
+(* Entries tagged CArgued / CStdlib / CHarnessOnly carry no theorem.        *)
 (* ======================================================================== *)
 
-(* how the 71 listed sites are covered: 31 by a theorem about the function of
-   model/Untrusted.v that contains the site as a checked operation, 15 by a
-   lemma about the as-written transcription of the site; 17 are only ARGUED in
-   prose (constant bounds, static types, values tink-go built itself), 6 lie
-   inside the standard library (trusted behaviour named), 2 are decided by the
-   harness alone (the panic(err) of Handle.KeysetInfo; the parameters parsers
-   reached through an ECIES DEM template) - these 25 carry no theorem *)
+(* The table type-checks, i.e. each of its 10 CModel and 11 CLemma entries
+   holds a function into `outcome`, an input on which the unguarded operation
+   panics, and a proof that the guarded one never does.  The other 51 entries
+   carry no theorem: 43 argued in prose (constant bounds, static types, values
+   tink-go built itself, nil-safe getters = total getters of the model, integer
+   conversions - which wrap rather than panic; their comparisons are the next
+   theorems), 6 inside the standard library, 2 decided by the harness alone.
+   The counts are counts of constructors, not a measure of completeness. *)
 Theorem C14_panic_site_table_coverage :
-  (length panic_sites = 71)%nat /\
-  (UntrustedPanicSites.count by_model_theorem panic_sites = 31)%nat /\
-  (UntrustedPanicSites.count by_site_lemma panic_sites = 15)%nat /\
-  (UntrustedPanicSites.count argued_only panic_sites = 17)%nat /\
+  (length panic_sites = 72)%nat /\
+  (UntrustedPanicSites.count by_model_theorem panic_sites = 10)%nat /\
+  (UntrustedPanicSites.count by_site_lemma panic_sites = 11)%nat /\
+  (UntrustedPanicSites.count argued_only panic_sites = 43)%nat /\
   (UntrustedPanicSites.count is_stdlib panic_sites = 6)%nat /\
   (UntrustedPanicSites.count is_harness_only panic_sites = 2)%nat.
 Proof. exact panic_site_coverage_counts. Qed.
